@@ -14,6 +14,8 @@ from . import analysis
 
 rule("C12.a", "time homogeneity: whatever reaches c, l, u, b or a dispatch factor has time degree 0 (each rate meets exactly one "
               "step length, each duration is converted to steps), and no two quantities of different degree are added", floor=30)
+rule("C12.f", "a running sum of step lengths is compared with a duration given by the user with a tolerance: k steps of 1/24 day do not sum "
+              "to exactly k/24, so an exact <= drops the last step for some main time units", floor=1)
 rule("C20.j", "order book: the cost of an order is capacity x price x covered step lengths x discount factor and its delivered "
               "volume capacity x step length - time degree 0, discounted exactly once (the degree rules C12.a / C02.b on OrderBook)", floor=2)
 rule("C02.a", "time homogeneity of bounds, costs and take right-hand sides of storages, contracts and transports", floor=15,
@@ -46,7 +48,7 @@ def _verdict(vals, want_t, want_d):
     return True, []
 
 
-@analysis("degrees", ["C12.a", "C02.a", "C02.b", "C12.c", "C19.d", "C08.e", "C12.e", "C20.j"])
+@analysis("degrees", ["C12.a", "C02.a", "C02.b", "C12.c", "C19.d", "C08.e", "C12.e", "C20.j", "C12.f"])
 def run(ctx):
     p = ctx.p
     summaries = {}
@@ -200,3 +202,29 @@ def run(ctx):
         ctx.ob("C12.c", fn, au.short(st, 70), ok,
                "the conversion rate -> volume per step must use the restricted grid's step-length vector elementwise", node=st)
     ctx.require(len(anchors) >= 4, "fewer than 4 anchored rate conversions found")
+
+    # ================================================================= C12.f accumulated step lengths vs. a duration
+    n_f = 0
+    for fn in sorted(p.all_functions(), key=lambda f: f.qualname):
+        if fn.parent is not None:
+            continue
+        for n in au.walk_local(fn.node, include_self=False):
+            if not (isinstance(n, ast.Compare) and len(n.ops) == 1 and isinstance(n.ops[0], (ast.LtE, ast.Lt, ast.GtE, ast.Gt, ast.Eq))):
+                continue
+            sides = [n.left, n.comparators[0]]
+            acc = [x for x in sides if any(isinstance(c, ast.Call) and au.method_name(c) == "cumsum" for c in au.walk_local(x))
+                   and any(isinstance(y, ast.Name) and y.id == "dt" or isinstance(y, ast.Attribute) and y.attr == "dt" for y in au.walk_local(x))]
+            if len(acc) != 1:
+                continue
+            other = sides[1] if acc[0] is sides[0] else sides[0]
+            if au.const_num(other) is not None:
+                continue
+            n_f += 1
+            tol = any(isinstance(c, ast.BinOp) and isinstance(c.op, (ast.Add, ast.Sub, ast.Mult)) and any(
+                au.const_num(k) is not None and 0 < abs(au.const_num(k) - (1 if isinstance(c.op, ast.Mult) else 0)) < 1e-3 for k in au.walk_local(c) if isinstance(k, ast.Constant))
+                for x in sides for c in au.walk_local(x)) or any(isinstance(c, ast.Call) and au.method_name(c) in ("isclose", "round", "around", "rint") for x in sides for c in au.walk_local(x))
+            ctx.ob("C12.f", fn, au.short(n, 80), tol,
+                   "a running sum of step lengths is compared exactly with %s: in main time units in which a step is not exactly representable "
+                   "(hours on a grid in days: 1/24) ten steps sum to slightly more than 10/24 and the tenth step drops out of the window - "
+                   "the same storage with max_store_duration of 10 hours is worth 100 in 'h' and 'min' but 99 in 'd'" % au.short(other, 40), node=n)
+    ctx.require(n_f >= 1, "no comparison of accumulated step lengths with a duration found (max_store_duration window)")
